@@ -43,7 +43,18 @@ pub fn set_lock_window(on: bool) {
     LOCK_WINDOW.store(on, Ordering::Release);
 }
 
+static PATIENT: AtomicBool = AtomicBool::new(false);
+
+/// Histories that move tens of MiB per step: a thread may legitimately run for
+/// seconds between two scheduling points on a busy machine.
+pub fn set_patient(on: bool) {
+    PATIENT.store(on, Ordering::Release);
+}
+
 fn blocked_after() -> Duration {
+    if PATIENT.load(Ordering::Acquire) {
+        return Duration::from_secs(45);
+    }
     if IMPATIENT.load(Ordering::Acquire) {
         Duration::from_millis(200)
     } else if LOCK_WINDOW.load(Ordering::Acquire) {
